@@ -14,7 +14,12 @@ ASSUMPTIONS = [
     "UTMI-side inputs come from logic registered in the usb domain: they change after a usb clock edge on the basis "
     "of the outputs sampled at that edge; tx_valid is raised with the first byte, the next byte follows each sampled "
     "tx_ready, tx_valid drops after the last byte's tx_ready; tx_data is arbitrary (don't care) while tx_valid is low; "
-    "op_mode / pull controls change only between packets",
+    "pull controls change only between packets; op_mode changes only between packets in subs 'tx'/'rx'",
+    "sub 'mode-switch': op_mode goes to non-driving at any usb cycle of a transmission, as USBDevice does when the "
+    "application drops `connect` (USBResetSequencer enters DISCONNECT from its *_NON_RESET states regardless of the "
+    "transmitter) and returns to normal no earlier than Tddis = 2.5 us = 30 usb cycles later; tx_valid is dropped "
+    "0..40 usb cycles after the switch and before the return; measured on the unmodified tree: the pads are released "
+    "in the same 48 MHz cycle the op_mode input changes (combinational), so no registration allowance is given",
     "the bit-stuffing run counter starts at the first data bit; packets whose first byte begins with five 1s (where "
     "counting the SYNC's final 1 as USB 2.0 7.1.9 does would give a different stuffing; no PID looks like that) "
     "are not generated",
@@ -32,6 +37,8 @@ ASSUMPTIONS = [
 CONFIGS = [(pd, off) for pd in (False, True) for off in (0, 1, 2, 3)]
 
 J = (1, 0)
+SWITCH_ALLOWANCE = 0      # 48 MHz cycles between op_mode becoming non-driving and the pads having to be released
+TDDIS_TICKS = 30          # 2.5 us at 12 MHz: shortest stay of USBResetSequencer's DISCONNECT state in NON_DRIVING
 
 
 def make_bench(pulldown, offset):
@@ -152,15 +159,51 @@ class Driver:
                     self.seen_oe = False
                     self.low = 0
                     self.pending = dict(tx_valid=1, tx_data=ev["data"][0], op_mode=ev["op_mode"])
-                    self.log.append(dict(kind="tx", ev=ev, t0=t, t1=None, accepted=0, timeout=False))
+                    self.log.append(dict(kind="tx", ev=ev, t0=t, t1=None, accepted=0, timeout=False, sw_t=None))
                     self.st = "tx"
+                    self.age = 0
+                    self.driven = 0
                 else:
                     self.wait -= 1
+        elif self.st == "sw":
+            # the transmission was cut short by op_mode := non-driving; the producer keeps behaving (next byte after a
+            # sampled tx_ready) until it drops tx_valid `drop` usb cycles later; op_mode returns to normal after `dwell`
+            ev = self.ev
+            rec = self.log[-1]
+            sw = ev["sw"]
+            if tick:
+                self.swn += 1
+                if c["tx_valid"] and self.pending is None:
+                    if prev.tx_ready:
+                        self.idx += 1
+                        rec["accepted"] = self.idx
+                        if self.idx >= len(ev["data"]):
+                            self.pending = dict(tx_valid=0, tx_data=ev["junk"])
+                        else:
+                            self.pending = dict(tx_data=ev["data"][self.idx])
+                    elif self.swn > sw["drop"]:
+                        self.pending = dict(tx_valid=0, tx_data=ev["junk"])
+                if self.swn == sw["dwell"]:
+                    if c["tx_valid"] and not (self.pending and self.pending.get("tx_valid") == 0):
+                        raise RuntimeError("mode switch: tx_valid still high at the end of the dwell")
+                    self.pending = {**(self.pending or {}), "op_mode": 0}
+                    rec["sw_t1"] = t + 1
+                    self.low = 0
+                    self.nticks = 0
+                    self.st = "swdrain"
+        elif self.st == "swdrain":
+            if tick:
+                self.low = self.low + 1 if not prev.dp_oe else 0
+                self.nticks += 1
+                if self.low >= 6 or self.nticks > 200:
+                    self.log[-1]["t1"] = t
+                    self.st = "next"
         elif self.st == "tx":
             ev = self.ev
             rec = self.log[-1]
             if prev.dp_oe:
                 self.seen_oe = True
+                self.driven += 1
             if tick and c["tx_valid"]:
                 self.nticks += 1
                 if prev.tx_ready:
@@ -183,6 +226,20 @@ class Driver:
                     self.pending = dict(op_mode=0)
                     rec["t1"] = t
                     self.st = "next"
+            if tick and self.st == "tx":
+                sw = ev.get("sw")
+                if sw is not None and self.age == sw["at"]:
+                    # op_mode is a usb-domain register of the reset sequencer: it changes after a usb edge like every
+                    # other UTMI-side input, whatever the transmitter is doing
+                    rec["sw_phase"] = ("before-drive" if not self.seen_oe else "eop" if not c["tx_valid"] or
+                                       (self.pending and self.pending.get("tx_valid") == 0)
+                                       else "sync" if self.driven < 32 else "data")
+                    rec["sw_driving"] = bool(prev.dp_oe)
+                    self.pending = {**(self.pending or {}), "op_mode": 1}
+                    rec["sw_t"] = t + 1
+                    self.swn = 0
+                    self.st = "sw"
+                self.age += 1
         elif self.st == "end":
             self.endwait -= 1
             if self.endwait <= 0:
@@ -226,6 +283,20 @@ def check(case_events, drv, trace, has_pd, cfgname):
         t1 = rec["t1"] if rec["t1"] is not None else n
         what = f"{cfgname}: tx of {bytes(ev['data']).hex()} (op_mode={ev['op_mode']}, cycles {t0}..{t1})"
         on = [t for t in range(t0, t1) if trace[t].dp_oe]
+        if rec.get("sw_t") is not None:
+            # only the statement's clause is judged for a transmission cut short by a mode change: no drive in any
+            # cycle in which the op_mode input is non-driving (the pads follow op_mode combinationally on the
+            # unmodified tree: allowance SWITCH_ALLOWANCE = 0 cycles)
+            a, b = rec["sw_t"] + SWITCH_ALLOWANCE, rec.get("sw_t1", n)
+            bad = [t for t in range(a, min(b, n)) if trace[t].dp_oe or trace[t].dn_oe]
+            if bad:
+                return fail(f"{what}: op_mode switched to non-driving in cycle {rec['sw_t']} (during {rec['sw_phase']}, "
+                            f"back to normal in cycle {b}) but D+/D- are driven in cycles {bad[0]}..{bad[-1]} "
+                            f"({len(bad)} cycles)", signature="drives-after-switch-to-non-driving-mode")
+            labels.add("switch-during-" + rec["sw_phase"])
+            if rec["sw_driving"]:
+                nontrivial = True
+            continue
         if ev["op_mode"] == 1:
             if on:
                 return fail(f"{what}: D+/D- driven in cycles {on[0]}..{on[-1]} in the UTMI non-driving mode",
@@ -265,6 +336,10 @@ def check(case_events, drv, trace, has_pd, cfgname):
             nontrivial = True
         if ns and line.stuff(line.bytes_to_bits(ev["data"]))[0][-7:-1] == [1] * 6:
             labels.add("tx-stuff-before-eop")
+    if any(rec.get("sw_t") is not None for rec in drv.log):
+        # a cut-short transmission is looped back as a truncated packet; nothing is asserted about what the receiver
+        # makes of it (the sub that generates mode switches has no receive events)
+        return Result(ok=True, nontrivial=nontrivial, labels=tuple(sorted(labels)))
     # ---- receive events: sequence of rx_active intervals at usb edges
     rx = [rec for rec in drv.log if rec["kind"] == "rx"]
     intervals = []
@@ -432,4 +507,40 @@ def _resolve_violation(case):
     return case
 
 
-SUBS = [TxSub(), RxSub()]
+class ModeSwitchSub(_Base):
+    name = "mode-switch"
+    budget = {"quick": 600, "thorough": 24000}
+    rule = ("1..3 normal-mode transmit packets (1..24 bytes) of which at least one has op_mode switched to non-driving "
+            "at a generated usb cycle 0..8*len+24 after tx_valid rose (before the drive starts, in SYNC, data, EOP, "
+            "after the end = no switch); the producer drops tx_valid 0..40 usb cycles later (or when its bytes are "
+            "taken), op_mode returns to normal after 30..80 usb cycles; interleaved with pull-control changes and "
+            "ordinary packets; oracle for a switched packet: D+/D- output enables low in every 48 MHz cycle in which "
+            "the op_mode input is non-driving (nothing else is judged for it), ordinary packets and pin invariants by "
+            "the 'tx' rules; non-trivial = the pads were driven in the cycle before the switch")
+
+    def strategy(self):
+        def sw_tx(data):
+            return st.fixed_dictionaries(dict(
+                kind=st.just("tx"), data=st.just(data), op_mode=st.just(0), gap=st.integers(0, 9), junk=JUNK,
+                sw=st.fixed_dictionaries(dict(
+                    at=st.one_of(st.integers(0, 12), st.integers(0, 8 * len(data) + 24),
+                                 st.integers(8 * len(data) + 4, 8 * len(data) + 16)),
+                    drop=weighted([(0, 3), (1, 1), (2, 1)]).flatmap(
+                        lambda k: st.just(0) if k == 0 else st.integers(1, 40 if k == 2 else 4)),
+                    dwell=st.integers(TDDIS_TICKS, 80)))))
+        switched = pkt_bytes(24, 4).flatmap(sw_tx).map(_fix_dwell)
+        tx = st.fixed_dictionaries(dict(kind=st.just("tx"), data=pkt_bytes(12, 3), op_mode=weighted([(0, 5), (1, 1)]),
+                                        gap=st.integers(0, 9), junk=JUNK))
+        return st.fixed_dictionaries(dict(
+            cfg=st.integers(0, len(CONFIGS) - 1), idle=JUNK,
+            pre=st.lists(st.one_of(tx, ctl_event()), max_size=1), sw=switched,
+            post=st.lists(st.one_of(switched, tx, ctl_event()), max_size=2),
+        )).map(lambda c: dict(cfg=c["cfg"], idle=c["idle"], events=c["pre"] + [c["sw"]] + c["post"]))
+
+
+def _fix_dwell(ev):
+    ev["sw"]["dwell"] = max(ev["sw"]["dwell"], ev["sw"]["drop"] + 2)
+    return ev
+
+
+SUBS = [TxSub(), RxSub(), ModeSwitchSub()]
